@@ -195,8 +195,12 @@ romberg = Fn(I + 'romberg', ret='res', level='L0',
                         'body_end': ('assert forall|i: int, j: int| 0 <= i < nmax && 0 <= j < nmax && !(i == n && j == m) implies #[trigger] at2(r.data.v@, nmax as int, i, j) == at2(pre_t, nmax as int, i, j) by '
                                      '{ lemma_idx(i, j, nmax as int, nmax as int); if i * nmax + j == n * nmax + m { lemma_idx_inj(i, j, n as int, m as int, nmax as int); } }')}},
              hints=[('let mut r = Matrix::zeros(nmax, nmax);', 'before', 'proof { assert(nmax * nmax <= 961) by(nonlinear_arith) requires 1 <= nmax <= 31; }'),
-                    ('return r[[n, n]];', 'pre', 'proof { assert(richardson(r.data.v@, nmax as int, n as int)); lemma_idx(n as int, n as int, nmax as int, nmax as int); } '),
-                    ('\n            r[[nmax - 1, nmax - 1]]\n', 'replace', '\n proof { assert(richardson(r.data.v@, nmax as int, nmax - 1)); }\n r[[nmax - 1, nmax - 1]]\n')])
+                    ('return r[[n, n]];', 'replace',
+                     '{ let out_ = r[[n, n]]; proof { let t_ = r.data.v@; lemma_idx(n as int, n as int, nmax as int, nmax as int); assert(t_.len() == nmax * nmax); assert(richardson(t_, nmax as int, n as int)); '
+                     'assert(out_ == at2(t_, nmax as int, n as int, n as int)); assert(0 <= n < nmax && n >= 2); assert(romberg_result(nmax as int, out_)); } return out_; }'),
+                    ('\n            r[[nmax - 1, nmax - 1]]\n', 'replace',
+                     '\n ({ let out_ = r[[nmax - 1, nmax - 1]]; proof { let t_ = r.data.v@; lemma_idx(nmax - 1, nmax - 1, nmax as int, nmax as int); assert(t_.len() == nmax * nmax); assert(richardson(t_, nmax as int, nmax - 1)); '
+                     'assert(out_ == at2(t_, nmax as int, nmax - 1, nmax - 1)); assert(romberg_result(nmax as int, out_)); } out_ })\n')])
 UNITS.append(Unit('C07_romberg', 'C07', [romberg], use=core.core_stubs(), spec=SPEC + ROM_SPEC, preludes=PRE, broadcast=BC, level='L0', types=core.TYPES, type_spec=core.TYPE_SPEC, rlimit=100,
                   notes='romberg returns a diagonal entry of a tableau whose entries (n,m), m >= 1, are the Richardson extrapolation of their left and upper-left neighbours with factor 4^m - 1; '
                         'the early exit can only return a level >= 2 (or the last level); the first column (refined trapezoid sums of the caller-supplied integrand) is left unconstrained'))
